@@ -83,9 +83,9 @@ PROPS = {
     },
     "C15": {
         "claim": "Theorems about NewValueSet (values reported back lower-cased in order, lookups by name / type / type+subtype under the stated uniqueness, signature render/load round trip). Tied to the code by differential runs over random value lists with provenance-carrying values; built functions inside conversion chains are exercised by the resolver families.",
-        "note": "The struct-tag string round trip is an explicit hypothesis (TagRoundTrips), discharged by evaluation for sample labels and checked on the real code by the correspondence run.",
-        "theorems": ["ArgMapper.C15.values_roundtrip", "ArgMapper.C15.lookup_named", "ArgMapper.C15.lookup_typed", "ArgMapper.C15.lookup_typed_sub", "ArgMapper.C15.signature_roundtrip", "ArgMapper.C15.signature_positional_pre_repair"],
-        "modules": ["ArgMapper.Props.C15"], "facts": {"vsetValidates": "true"},
+        "note": "The struct-tag string round trip (hypothesis TagRoundTrips of the lookup theorems) is proved for every label whose subtype has no comma (tag_roundtrip, from splitOn_char: String.splitOn with a one-character separator is the split of the character list), hence for every label the validation of NewValueSet accepts (tagRoundTrips_of_ok, checked_values_roundtrip). Proof files TagStrings*.lean import two Batteries modules.",
+        "theorems": ["ArgMapper.C15.values_roundtrip", "ArgMapper.C15.lookup_named", "ArgMapper.C15.lookup_typed", "ArgMapper.C15.lookup_typed_sub", "ArgMapper.C15.signature_roundtrip", "ArgMapper.C15.signature_positional_pre_repair", "ArgMapper.C15.splitOn_char", "ArgMapper.C15.tag_roundtrip", "ArgMapper.C15.tagRoundTrips_of_ok", "ArgMapper.C15.checked_rejects", "ArgMapper.C15.checked_values_roundtrip"],
+        "modules": ["ArgMapper.Props.C15", "ArgMapper.Props.C15b"], "facts": {"vsetValidates": "true"},
         "rule": "vset: at least one value; sig: positional signatures.",
         "runs": {"quick": [fam("vset", 1500, 6), fam("sig", 1000, 5), fam("call", 500, 0, "general")],
                  "thorough": [fam("vset", 100000, 6), fam("sig", 50000, 5), fam("call", 60000, 0, "general")]},
